@@ -87,7 +87,154 @@ render!(render_bds61, d_bds61, |_| true);
 render!(render_bds62, d_bds62, |_| true);
 render!(render_bds65, d_bds65, |_| true);
 
-registry!(total_bds05, total_bds06, total_bds08, total_bds09, total_bds61, total_bds62, total_bds65,
+// ---------------------------------------------------------------- (b) whole frames through Message::try_from
+// The discriminating bytes are concrete (CBMC executes only the selected arm), every other bit is symbolic.
+// Each of these costs ~50 min of symbolic execution (moves of the 1.5 kB DF value): thorough tier.
+use crate::refs::syndrome;
+use rs1090::decode::DF;
+
+fn expect_len(b0: u8) -> usize { if (b0 >> 3) & 0x10 != 0 { 14 } else { 7 } }
+
+macro_rules! frame_short {
+    ($name:ident, $b0:expr) => {
+        harness! {
+            #[kani::unwind(17)]
+            #[kani::stub(alloc::fmt::format, crate::stubs::fmt_stub)]
+            /// every 56-bit frame with this first byte: a message or an error, no panic; the crc
+            /// field is the reference remainder
+            fn $name(s) {
+                let mut f: [u8; 7] = s.bytes();
+                f[0] = $b0;
+                let r = Message::try_from(&f[..]);
+                vcover!(r.is_ok());
+                if let Ok(m) = &r {
+                    vassert!(m.crc == syndrome(&f, 7), "crc field is the remainder of the frame");
+                    if let DF::AllCallReply { icao, .. } = &m.df {
+                        vassert!(icao.0 == (f[1] as u32) << 16 | (f[2] as u32) << 8 | f[3] as u32, "AA is bits 9..32 of the frame");
+                    }
+                }
+                core::mem::forget(r);
+            }
+        }
+    };
+}
+frame_short!(frame_df0, 0x02);
+frame_short!(frame_df4, 0x20);
+frame_short!(frame_df5, 0x28);
+frame_short!(frame_df11, 0x5d);
+frame_short!(frame_df11_ca0, 0x58);
+
+macro_rules! frame_long {
+    ($name:ident, $b0:expr, $b4:expr, $fixcrc:expr) => {
+        harness! {
+            #[kani::unwind(17)]
+            #[kani::stub(alloc::fmt::format, crate::stubs::fmt_stub)]
+            #[kani::stub(libm::atan2, crate::stubs::k::atan2_stub)]
+            #[kani::stub(libm::hypot, crate::stubs::k::hypot_stub)]
+            /// every 112-bit frame with this first byte (and, for DF17/18, this type-code byte; the
+            /// parity of DF17 frames is made valid by construction so that the accepting branch is
+            /// reachable): a message or an error, no panic
+            fn $name(s) {
+                let mut f: [u8; 14] = s.bytes();
+                f[0] = $b0;
+                let b4: Option<u8> = $b4;
+                if let Some(v) = b4 { f[4] = v; }
+                if $fixcrc {
+                    f[11] = 0; f[12] = 0; f[13] = 0;
+                    let p = syndrome(&f, 14);
+                    f[11] = (p >> 16) as u8; f[12] = (p >> 8) as u8; f[13] = p as u8;
+                }
+                let r = Message::try_from(&f[..]);
+                vcover!(r.is_ok());
+                if let Ok(m) = &r {
+                    vassert!(m.crc == syndrome(&f, 14), "crc field is the remainder of the frame");
+                    match &m.df {
+                        DF::ExtendedSquitterADSB(a) => vassert!(a.icao24.0 == (f[1] as u32) << 16 | (f[2] as u32) << 8 | f[3] as u32, "AA is bits 9..32 of the frame"),
+                        DF::ExtendedSquitterTisB { cf, .. } => vassert!(cf.aa.0 == (f[1] as u32) << 16 | (f[2] as u32) << 8 | f[3] as u32, "AA is bits 9..32 of the frame"),
+                        _ => {}
+                    }
+                }
+                core::mem::forget(r);
+            }
+        }
+    };
+}
+frame_long!(frame_df16, 0x80, None, false);
+frame_long!(frame_df19, 0x98, None, false);
+frame_long!(frame_df24, 0xc0, None, false);
+frame_long!(frame_df17_tc00, 0x8d, Some(0x00), true);
+frame_long!(frame_df17_tc04, 0x8d, Some(0x20), true);
+frame_long!(frame_df17_tc07, 0x8d, Some(0x38), true);
+frame_long!(frame_df17_tc11, 0x8d, Some(0x58), true);
+frame_long!(frame_df17_tc19_st1, 0x8d, Some(0x99), true);
+frame_long!(frame_df17_tc19_st0, 0x8d, Some(0x98), true);
+frame_long!(frame_df17_tc28, 0x8d, Some(0xe1), true);
+frame_long!(frame_df17_tc29, 0x8d, Some(0xe8), true);
+frame_long!(frame_df17_tc31_v0, 0x8d, Some(0xf8), true);
+frame_long!(frame_df17_tc31_r2, 0x8d, Some(0xfa), true);
+frame_long!(frame_df17_tc23, 0x8d, Some(0xb8), true);
+frame_long!(frame_df18_tc11, 0x92, Some(0x58), false);
+frame_long!(frame_df18_tc19, 0x90, Some(0x99), false);
+
+// ---------------------------------------------------------------- (c) length discipline
+harness! {
+    #[kani::unwind(34)]
+    #[kani::stub(alloc::fmt::format, crate::stubs::fmt_stub)]
+    /// ANY first byte (all 32 downlink formats), any content, any length shorter than the format
+    /// prescribes (0..=6 for short, 0..=13 for long formats): an error, never a panic
+    fn len_too_short(s) {
+        let buf: [u8; 14] = s.bytes();
+        let len = s.below(14) as usize;
+        vassume!(len < expect_len(buf[0]));
+        let r = Message::try_from(&buf[..len]);
+        vcover!(len == 13);
+        vcover!(len == 0);
+        vassert!(r.is_err(), "a frame shorter than its downlink format prescribes is an error");
+        core::mem::forget(r);
+    }
+}
+
+harness! {
+    #[kani::unwind(34)]
+    #[kani::stub(alloc::fmt::format, crate::stubs::fmt_stub)]
+    /// DF11 with any content and any length 7..=32: accepted only at exactly 7 bytes
+    fn len_df11(s) {
+        let mut buf: [u8; 32] = s.bytes();
+        buf[0] = 0x5d;
+        let len = s.below(33) as usize;
+        vassume!(len >= 7);
+        let r = Message::try_from(&buf[..len]);
+        vcover!(r.is_ok());
+        vcover!(len == 32);
+        if r.is_ok() { vassert!(len == 7, "accepted only at the length the downlink format prescribes"); }
+        core::mem::forget(r);
+    }
+}
+
+harness! {
+    #[kani::unwind(17)]
+    #[kani::stub(alloc::fmt::format, crate::stubs::fmt_stub)]
+    /// decoding the same bytes twice gives equal results (DF11 instance)
+    fn determinism_df11(s) {
+        let mut f: [u8; 7] = s.bytes();
+        f[0] = 0x5d;
+        let r1 = Message::try_from(&f[..]);
+        let r2 = Message::try_from(&f[..]);
+        vcover!(r1.is_ok());
+        match (&r1, &r2) {
+            (Ok(a), Ok(b)) => vassert!(a == b, "same bytes, same message"),
+            (Err(_), Err(_)) => {}
+            _ => vassert!(false, "same bytes, same verdict"),
+        }
+        core::mem::forget((r1, r2));
+    }
+}
+
+registry!(frame_df0, frame_df4, frame_df5, frame_df11, frame_df11_ca0, frame_df16, frame_df19, frame_df24,
+          frame_df17_tc00, frame_df17_tc04, frame_df17_tc07, frame_df17_tc11, frame_df17_tc19_st1, frame_df17_tc19_st0,
+          frame_df17_tc28, frame_df17_tc29, frame_df17_tc31_v0, frame_df17_tc31_r2, frame_df17_tc23, frame_df18_tc11, frame_df18_tc19,
+          len_too_short, len_df11, determinism_df11,
+          total_bds05, total_bds06, total_bds08, total_bds09, total_bds61, total_bds62, total_bds65,
           total_bds10, total_bds17, total_bds18, total_bds19, total_bds20, total_bds21, total_bds30,
           total_bds40, total_bds44, total_bds45, total_bds50, total_bds60, total_bds05_commb, total_bds65_commb,
           render_bds05, render_bds06, render_bds08, render_bds09, render_bds61, render_bds62, render_bds65);
